@@ -109,6 +109,54 @@ def build(prog):
     return snap
 
 
+def _find_renamed(prog, fid, want, live_ids):
+    crate, sa, _name, _mod = fid.split("|")
+    for k in sorted(prog.fns):
+        g = prog.fns[k]
+        if g.info["kind"] == "Closure" or g.info["crate"] != crate or "::tests::" in k or len(g.blocks) > 120:
+            continue
+        if (g.info.get("self_adt") or "").split("::")[-1] != sa:
+            continue
+        if fn_id(g) in live_ids:
+            continue
+        try:
+            if leaf_sig(prog, g) == want:
+                return g
+        except Exception:
+            continue
+    return None
+
+
+def apply_renames(prog):
+    """Rename resolution (run once per program, before any rule): a helper of the reviewed snapshot that is no longer found under
+    its name but whose *complete path table* is found unchanged under another name on the same type / in the same crate has merely
+    been renamed (or moved).  Its def records get the reviewed name back as an alias, so that every name-anchored rule, kernel tree
+    and leaf table keeps looking at the same function instead of failing closed on a missing anchor.  Returns {old id: new name}."""
+    try:
+        snap = json.load(open(SNAP_FILE))
+    except Exception:
+        return {}
+    live = set()
+    for k, f in prog.fns.items():
+        if f.info["kind"] != "Closure":
+            live.add(fn_id(f))
+    out = {}
+    for fid, want in sorted(snap.items()):
+        if fid in live:
+            continue
+        g = _find_renamed(prog, fid, want, live & set(snap))
+        if g is None:
+            continue
+        old = fid.split("|")[2]
+        out[fid] = g.name
+        for c in prog.crates.values():
+            for d in c.defs:
+                if d.get("key") == g.key:
+                    d["alias_of"] = d.get("name")
+                    d["name"] = old
+    return out
+
+
 def check_snapshot(ctx, pid):
     prog = ctx.prog
     try:
@@ -126,6 +174,13 @@ def check_snapshot(ctx, pid):
         f = live.get(fid)
         short = "%s::%s" % (fid.split("|")[1] or fid.split("|")[3].split("::")[-1], fid.split("|")[2])
         if f is None:
+            # renamed / moved helper: the same path table under another name on the same type (or free function in the same crate) is
+            # the same helper; only a helper that is really gone (or changed while being renamed) is reported
+            ren = _find_renamed(prog, fid, want, set(live))
+            if ren is not None:
+                n += 1
+                ctx.inst(pid + ".S", "helper/" + short, True, "the complete path table of %s equals the reviewed snapshot" % short, "ok (now named %s)" % ren.name, ren.loc(ren.raw["span"]))
+                continue
             ctx.missing(pid + ".S", "helper " + short)
             continue
         try:
